@@ -114,6 +114,7 @@ def numIn (isNum : Bool) (precision : Nat) (pf : Float) (absShort big0 big1 : St
   isNum := isNum
   precision := precision
   neg := pf < 0.0
+  zero := pf == 0.0
   absShort := absShort
   bigShort := fun p => if p then big1 else big0
   fixed := fun pct d =>
